@@ -1,6 +1,7 @@
 #!/bin/bash
 # tools/battery.sh OUT.json [names...]  -- run tools/seedtest.py over the seeded changes in three processes at once, each on its own
 # scratch worktree of /repo's HEAD (outside /repo and /verif), from a snapshot copy of /verif so that work on /verif does not disturb it.
+# SKIP_TESTS=1 leaves the pinned suite out (it was run, and recorded, when each change was collected).
 # The changes are split by property (no two processes run the same property's check); results are merged into OUT.json.
 set -e
 OUT=$1; shift
@@ -10,14 +11,15 @@ for k in 1 2 3; do
   W=/tmp/bat$k
   if [ -d $W ]; then git -C $W checkout -q -- . ; git -C $W checkout -q --detach $(git -C /repo rev-parse HEAD); else git -C /repo worktree add -q --detach $W HEAD; fi
 done
+SKIP=""; if [ -n "$SKIP_TESTS" ]; then SKIP="--skip-tests"; fi
 NAMES="$@"
 if [ -z "$NAMES" ]; then NAMES=$(ls $SNAP/seeded | grep -E '^C[0-9]+-[0-9]+$'); fi
 pick() { for n in $NAMES; do p=${n%%-*}; p=${p#C}; p=$((10#$p)); if [ $p -ge $1 ] && [ $p -le $2 ]; then echo -n "$n "; fi; done; }
 cd $SNAP
 rm -f /tmp/bat_res_[123].json
-N1="$(pick 1 8)"; [ -n "$N1" ] && ( python3 tools/seedtest.py --repo /tmp/bat1 --results /tmp/bat_res_1.json $N1  > /tmp/bat_1.log 2>&1 ) &
-N2="$(pick 9 13)"; [ -n "$N2" ] && ( python3 tools/seedtest.py --repo /tmp/bat2 --results /tmp/bat_res_2.json $N2 > /tmp/bat_2.log 2>&1 ) &
-N3="$(pick 14 20)"; [ -n "$N3" ] && ( python3 tools/seedtest.py --repo /tmp/bat3 --results /tmp/bat_res_3.json $N3 > /tmp/bat_3.log 2>&1 ) &
+N1="$(pick 1 8)"; [ -n "$N1" ] && ( python3 tools/seedtest.py $SKIP --repo /tmp/bat1 --results /tmp/bat_res_1.json $N1  > /tmp/bat_1.log 2>&1 ) &
+N2="$(pick 9 13)"; [ -n "$N2" ] && ( python3 tools/seedtest.py $SKIP --repo /tmp/bat2 --results /tmp/bat_res_2.json $N2 > /tmp/bat_2.log 2>&1 ) &
+N3="$(pick 14 20)"; [ -n "$N3" ] && ( python3 tools/seedtest.py $SKIP --repo /tmp/bat3 --results /tmp/bat_res_3.json $N3 > /tmp/bat_3.log 2>&1 ) &
 wait
 python3 - "$OUT" <<'PY'
 import json, sys, os
